@@ -28,7 +28,6 @@ import (
 	"github.com/containerd/containerd/v2/core/content"
 	"github.com/containerd/containerd/v2/core/images"
 	"github.com/containerd/containerd/v2/core/images/converter"
-	"github.com/containerd/containerd/v2/core/images/converter/uncompress"
 	"github.com/containerd/containerd/v2/pkg/archive/compression"
 	"github.com/containerd/containerd/v2/pkg/labels"
 	"github.com/containerd/containerd/v2/pkg/reference"
@@ -273,13 +272,7 @@ func layerLossLessConvertFunc(compressor estargz.Compressor, chunkSize int, minC
 			return nil, err
 		}
 		newDesc := desc
-		if uncompress.IsUncompressedType(newDesc.MediaType) {
-			if images.IsDockerType(newDesc.MediaType) {
-				newDesc.MediaType += ".gzip"
-			} else {
-				newDesc.MediaType += "+gzip"
-			}
-		}
+		newDesc.MediaType = estargzconvert.ConvertMediaTypeToGzip(newDesc.MediaType)
 		newDesc.Digest = w.Digest()
 		newDesc.Size = n
 		if newDesc.Annotations == nil {
